@@ -219,7 +219,10 @@ def classify(tu, fn, body, enums, sizes):
                     info.update(kind="init", pdu_param=p, guarded=True, steps=seq)
                     return info
         # ---- legacy wrappers ------------------------------------------------------------
-        leg = legacy_shape(stmts, params, porder, enums, sizes)
+        try:
+            leg = legacy_shape(stmts, params, porder, enums, sizes)
+        except (TypeError, IndexError, KeyError, AttributeError):
+            leg = None          # not the wrapper shape (e.g. a guard with a bare `return;`): algorithmic
         if leg is not None:
             info.update(leg)
             return info
